@@ -192,12 +192,14 @@ def _dim(shape, i):
 
 def slice_bounds(s: SliceV, dimlen):
     """(lo, hi, step) as NFs; negative constant bounds are counted from the end."""
-    step = NF.const(1) if isinstance(s.step, NoneV) else s.step.nf
+    step = NF.const(1) if isinstance(s.step, NoneV) else (s.step.nf if isinstance(s.step, Num) and s.step.nf is not None else app("opq", valkey(s.step)))
     sc = step.as_const()
 
     def fix(b, default):
         if isinstance(b, NoneV):
             return default
+        if not isinstance(b, Num) or b.nf is None:
+            return app("opq", valkey(b))
         c = b.nf.as_const()
         if c is not None and c < 0 and dimlen is not None:
             return dimlen + c
